@@ -186,6 +186,54 @@ static void bad_one(int state, int op, int j, int kind, int verbose)
 #include <unistd.h>
 #include <sys/mman.h>
 static void progress_open(const char *path) { int fd = open(path, O_RDWR | O_CREAT | O_TRUNC, 0644); if (fd < 0 || ftruncate(fd, 4096) != 0) return; prog_buf = mmap(NULL, 4096, PROT_READ | PROT_WRITE, MAP_SHARED, fd, 0); if (prog_buf == MAP_FAILED) prog_buf = NULL; close(fd); }
+/* (c) "a table using them can never abort": every life-cycle of a table that uses only the built-in hashes (explicitly, or by passing
+ * NULL), enumerated to depth 5 over {resize to three sizes, insert, find, erase, rehash, foreach, shrink_to_fit, clear}, with keys up to
+ * SIZE_MAX: no operation may end in abort() (or trap).  Keyed operations are only issued while the table has buckets. */
+static unsigned long goodcases;
+static const size_t gkeys[6] = { 0, 7, 3000000000u, (size_t)-1, ((size_t)1 << 63) + 5, 12 };
+static int good_run(int fi, const int *ops, int n, int verbose)
+{
+    cstl_hash_func_t *f = fi == 0 ? NULL : fi == 1 ? cstl_hash_mul : cstl_hash_div;
+    int i, ab = 0, resized = 0, used = 0;
+    shim_reset();
+    cstl_hash_init(&H, offsetof(struct elem, hn));
+    for (i = 0; i < n && !ab; i++) {
+        switch (ops[i]) {
+        case 0: SHIM_CALL(ab, cstl_hash_resize(&H, 8, f)); resized = 1; break;
+        case 1: SHIM_CALL(ab, cstl_hash_resize(&H, 16, NULL)); resized = 1; break;
+        case 2: SHIM_CALL(ab, cstl_hash_resize(&H, 5, f)); resized = 1; break;
+        case 3: if (resized && used < 6) { E[used].id = used; SHIM_CALL(ab, cstl_hash_insert(&H, gkeys[used], &E[used])); used++; } break;
+        case 4: if (resized) SHIM_CALL(ab, (cstl_hash_find(&H, gkeys[0], NULL, NULL), cstl_hash_find(&H, gkeys[3], NULL, NULL), cstl_hash_find(&H, 99, NULL, NULL))); break;
+        case 5: if (resized && used > 0) { SHIM_CALL(ab, cstl_hash_erase(&H, &E[used - 1])); } break;      /* erased elements are not re-used in this history */
+        case 6: SHIM_CALL(ab, cstl_hash_rehash(&H)); break;
+        case 7: SHIM_CALL(ab, cstl_hash_foreach(&H, cb_nop, NULL)); break;
+        case 8: SHIM_CALL(ab, cstl_hash_shrink_to_fit(&H)); break;
+        default: SHIM_CALL(ab, cstl_hash_clear(&H, NULL)); resized = 0; used = 6; break;      /* after clear the elements are gone; the object starts over */
+        }
+        if (verbose) printf("  op %d -> %s\n", ops[i], ab ? "ABORT" : "ok");
+        if (ops[i] == 9 && !ab) used = 0;
+    }
+    if (!ab) { shim_in_lib++; cstl_hash_clear(&H, NULL); shim_in_lib = 0; }
+    return ab ? i : 0;          /* 1-based index of the operation that aborted */
+}
+static void goodhash(void)
+{
+    int fi, len, ops[5], k; long code, total;
+    for (fi = 0; fi < 3 && nviol < 6; fi++) for (len = 1; len <= 5 && nviol < 6; len++) {
+        for (total = 1, k = 0; k < len; k++) total *= 10;
+        for (code = 0; code < total && nviol < 6; code++) {
+            long c = code; int bad; char rp[64];
+            for (k = 0; k < len; k++) { ops[k] = (int)(c % 10); c /= 10; }
+            if (ops[0] > 2) continue;                            /* a history starts with a resize */
+            snprintf(rp, sizeof rp, "good:%d:%d:%ld", fi, len, code);
+            if (prog_buf) snprintf(prog_buf, 200, "R %s\n", rp);
+            fl_which = 0;
+            bad = good_run(fi, ops, len, 0);
+            goodcases++; evals++; nontriv++;
+            if (bad) violation(rp, "a table that only ever used %s aborted in operation #%d of the history (0-2 resize to 8/16/5, 3 insert, 4 find, 5 erase, 6 rehash, 7 foreach, 8 shrink_to_fit, 9 clear)", fi == 0 ? "the default hash (NULL)" : fi == 1 ? "cstl_hash_mul" : "cstl_hash_div", bad);
+        }
+    }
+}
 static void badhash(void)
 {
     int st, op, j, kind, n;
@@ -218,12 +266,13 @@ int main(int argc, char **argv)
     }
     if (!prop || strcmp(prop, "C17")) { fprintf(stderr, "hashrange: property not served\n"); return 2; }
     if (replay) {
-        if (!strncmp(replay, "bad:", 4)) { int st, op, j, kind; if (sscanf(replay, "bad:%d:%d:%d:%d", &st, &op, &j, &kind) != 4) return 4; bad_one(st, op, j, kind, 1); }
+        if (!strncmp(replay, "good:", 5)) { int fi, len, k, ops[5]; long code; if (sscanf(replay, "good:%d:%d:%ld", &fi, &len, &code) != 3 || len > 5) return 4; for (k = 0; k < len; k++) { ops[k] = (int)(code % 10); code /= 10; } printf("case %s\n", replay); if (good_run(fi, ops, len, 1)) violation(replay, "a table that only ever used built-in hash functions aborted"); }
+        else if (!strncmp(replay, "bad:", 4)) { int st, op, j, kind; if (sscanf(replay, "bad:%d:%d:%d:%d", &st, &op, &j, &kind) != 4) return 4; bad_one(st, op, j, kind, 1); }
         else { size_t k, m; char w[8]; if (sscanf(replay, "%3[a-z]:%zu:%zu", w, &k, &m) != 3) return 4; if (w[0] == 'm') { printf("cstl_hash_mul(%zu, %zu) = %zu\n", k, m, cstl_hash_mul(k, m)); try_mul(k, m); } else { printf("cstl_hash_div(%zu, %zu) = %zu\n", k, m, cstl_hash_div(k, m)); try_div(k, m); } }
         if (nviol) { printf("VIOLATED: %s\n", violmsg[0]); return 1; }
         printf("no violation\n"); return 0;
     }
-    if (cfg < nshards) ranges(cfg, nshards, thorough); else badhash();
+    if (cfg < nshards) ranges(cfg, nshards, thorough); else { badhash(); goodhash(); }
     printf("{\"world\":\"hashrange\",\"config\":%d,\"config_desc\":\"%s\",\"property\":\"C17\",\"thorough\":%d,\"evaluations\":%lu,\"nontrivial_states\":%lu,\"exhaustive\":%s,\"closure\":%s,\"wall_s\":%.3f,"
            "\"counters\":{\"bad_hash_cases\":%lu,\"bad_hash_cases_in_which_the_bad_value_was_returned\":%lu,\"largest_fraction_key\":%zu},\"samples\":[\"%s\"],\"violations\":[",
            cfg, cfg < nshards ? thorough ? "built-in hashes: every key below 2^32, one key per single-precision value above (and its neighbours), every single-precision table size in [1,2^64] with the smallest m that rounds to it against the keys of extreme fraction, full product k<2^23 x m<=1024 (one shard of 16)" : "built-in hashes: every key below 2^28, one key per single-precision value above (and its neighbours), every single-precision table size up to 2^27 and every 64th above with the smallest m that rounds to it against the keys of extreme fraction, full product k<2^20 x m<=64 (one shard of 16)"
